@@ -61,6 +61,26 @@ theorem spec_insert (b : BMap α β) (k : α) (v : β) :
       simp [h1, h2]
     · intro h'; exact absurd h' h
 
+/-- `lowest` is the minimum key: in every reachable state it is the key of the first entry of the
+    strictly ascending in-order list, so it is below every other key of the tree (and `none` iff empty). -/
+theorem lowest_is_min (c : TreeCfg) (s : Tree α β) (h : Tree.Reach c s) :
+    (s.lowest = none ↔ s.root.toList = []) ∧
+    ∀ k0, s.lowest = some k0 → ∀ e ∈ s.root.toList, e.2.1 = k0 ∨ k0 < e.2.1 := by
+  have hs := (T.bst_iff_sorted s.root).1 (Tree.reach_inv h).bst
+  have hm : s.lowest = s.root.toList.head?.map (·.2.1) := T.minKey_eq s.root
+  constructor
+  · rw [hm]; cases s.root.toList <;> simp
+  · intro k0 hk e he
+    rw [hm] at hk
+    cases hl : s.root.toList with
+    | nil => rw [hl] at he; cases he
+    | cons x rest =>
+      rw [hl] at hk he hs
+      simp only [List.head?_cons, Option.map_some, Option.some.injEq] at hk
+      rcases List.mem_cons.1 he with rfl | hr
+      · exact Or.inl hk
+      · exact Or.inr (hk ▸ hs.1 e hr)
+
 /-- Non-vacuity: a concrete reachable state (three entries, one recycled slot). -/
 example : ∃ s : Tree Nat Nat, Tree.Reach cfgU8 s ∧ s.size = 2 ∧ s.free = [2] :=
   ⟨_, Tree.Reach.step (TreeOp.remove 5)
